@@ -214,6 +214,8 @@ namespace vf
       bool aborted = false;  // fuel: nothing is judged
       std::uint64_t fuel = 400000;
       std::uint64_t nframes = 0;
+      std::size_t max_depth = 100000;  // nesting limit of rule attempts (C11 lowers it: left recursion must not overflow the stack)
+      bool depth_exceeded = false;
       std::vector< pm::slot_script > slots;
       pm::action_script as;
 
@@ -259,6 +261,7 @@ namespace vf
          all_events.clear();
          violations.clear();
          aborted = false;
+         depth_exceeded = false;
          nframes = 0;
          failed_after_consuming_required = failed_after_consuming_optional_left = 0;
          unwinds = vetoes = raises = discarded_events = apply_calls = lookahead_frames = 0;
@@ -975,6 +978,11 @@ namespace vf
          }
          if( ++m.nframes > m.fuel ) {
             m.aborted = true;
+            throw fuel_exhausted();
+         }
+         if( m.stack.size() >= m.max_depth ) {
+            m.aborted = true;
+            m.depth_exceeded = true;
             throw fuel_exhausted();
          }
          if( m.stack.empty() ) {
